@@ -385,12 +385,19 @@ def depth_boundary(draw, shape, allow_asym=True):
     return dspec, bspec
 
 
+def tame(arr):
+    """Explicit zero-size chunks on an axis of length <= 1 (chunks (1, 0) / (0, 1)) are NOT explored: elementwise broadcasting and
+    concatenate treat such an axis as one broadcastable block while the declared chunks keep two (``(d + 1).compute()`` already has the
+    wrong length) -- C19's finding 'zero-chunk-on-len1-axis', not an overlap matter.  Zero-size chunks on longer axes stay."""
+    return dict(arr, chunks=[([c for c in ch if c] or [0]) if n <= 1 else list(ch) for n, ch in zip(arr["shape"], arr["chunks"])])
+
+
 @st.composite
 def overlap_array(draw):
     nd = draw(st.sampled_from([1, 1, 2, 2, 3]))
     top = {1: 12, 2: 7, 3: 4}[nd]
     shape = [draw(st.integers(1, top)) for _ in range(nd)]
-    return draw(C.arr(shape=shape, dtypes=("i8", "f8", "i4"), fills=("small", "arange", "dups"), zero_p=0.08))
+    return tame(draw(C.arr(shape=shape, dtypes=("i8", "f8", "i4"), fills=("small", "arange", "dups"), zero_p=0.08)))
 
 
 @st.composite
@@ -492,7 +499,7 @@ def sliding_case(draw):
     nd = draw(st.sampled_from([1, 1, 2, 2, 3]))
     top = {1: 12, 2: 7, 3: 4}[nd]
     shape = [draw(st.integers(1, top)) for _ in range(nd)]
-    arr = draw(C.arr(shape=shape, dtypes=("i8", "f8", "bool"), fills=("arange", "small"), zero_p=0.08))
+    arr = tame(draw(C.arr(shape=shape, dtypes=("i8", "f8", "bool"), fills=("arange", "small"), zero_p=0.08)))
     mode = draw(st.sampled_from(["none", "int", "tuple", "tuple", "repeat"]))
     if mode == "none":
         win = [draw(st.integers(1, n)) for n in shape]
